@@ -18,7 +18,7 @@ RULE = (
     "repetitions (1..6 chunks, empty chunks allowed), a permutation of the partial results, a reduction schedule (any "
     "parenthesisation), how the empty partials are made (constructor / zero() / copy() / constructor with the Label "
     "keys given in the opposite order) and the API (fill vs "
-    "histogrammar.defs.increment, + vs combine).  Oracle: fill-all == reduce(partials); B+zero == B == zero+B; "
+    "histogrammar.defs.increment; + vs combine vs accumulating intermediate results with +=).  Oracle: fill-all == reduce(partials); B+zero == B == zero+B; "
     "P+Q == Q+P; (P+Q)+R == P+(Q+R); zero() has the document of a fresh tree.  Non-trivial: >= 2 chunks each holding "
     "a positively weighted row and the rows reach >= 2 different leaves; distinct by sha1 of the canonical case."
 )
@@ -53,7 +53,7 @@ def strategy(tier):
             # a partial result may come from a tree whose Label keys were given in another order
             "relabel": [draw(st.integers(0, 3)) == 0 for _ in range(k)],
             "fill_api": draw(st.sampled_from(("fill", "fill", "increment"))),
-            "merge_api": draw(st.sampled_from(("+", "+", "combine"))),
+            "merge_api": draw(st.sampled_from(("+", "+", "combine", "+="))),
         }
 
     return cases()
@@ -123,11 +123,18 @@ def check(case):
     dparts = [doc(p) for p in partials]
 
     items = [partials[i] for i in case["perm"]]
+    owned = [False] * len(items)  # intermediate results belong to the reduction and may be accumulated into with +=
     for s in case["sched"]:
         if len(items) < 2:
             break
         i = s % (len(items) - 1)
-        items[i : i + 2] = [_merge(items[i], items[i + 1], case["merge_api"])]
+        if case["merge_api"] == "+=" and owned[i]:
+            acc = items[i]
+            acc += items[i + 1]
+            items[i : i + 2] = [acc]
+        else:
+            items[i : i + 2] = [_merge(items[i], items[i + 1], case["merge_api"])]
+        owned[i : i + 2] = [True]
     reduced = items[0]
     walk.require_views(reduced, "the reduction")
     if "reload" in case.get("detour", []):
